@@ -3,3 +3,7 @@
 ;@ghost clean Bool
 ; plsnR[p] : LSN currently stamped on the in-memory page object p (what Page.GetLSN returns)
 ; clean    : every effect of the log that was replayed is on disk (no dirty frame holds redo/undo work)
+;@ghost applied (Array Int Bool)
+; applied[p] : a tuple-level change was (re-)applied to page object p by the recovery pass
+;@ghost truncated Bool
+; truncated : the log file has been emptied during this start-up
